@@ -3,6 +3,7 @@ import AkVerif.Lemmas.LLSession
 import AkVerif.Lemmas.LLTransfer2
 import AkVerif.Lemmas.LLCtorRec
 import AkVerif.Lemmas.LLTmpl
+import AkVerif.Lemmas.LLCtorRecG
 /-!
 # C03 — left-recursive grammars are rejected; accepted grammars always terminate
 
@@ -71,13 +72,17 @@ theorem rejected_user_cyclic (inp : CtorIn) (U G : Prods Sym) (S NG NU : List Sy
     ∃ X, Plus (Reach1 U NU) X X :=
   LL.rejected_user_cyclic hD hU hF hNG hNU hrec
 
-/-- **The first sentence of the property, at the level of the constructor**: when the stages before the
-recursion check succeed (terminal names without `__`, skip set, `_create_productions`,
-`_factorize_productions`, `_verify_grammar_structure_part1`, nullables, FIRST, FOLLOW, table — their
-failures are other exception classes), the constructor raises `GrammarIsRecursive` **iff** some symbol
+/-- **The first sentence of the property, at the level of the constructor — CONDITIONAL**: under the hypothesis
+that every *other* stage of the constructor succeeds (`hD` terminal names without `__`, `hskip` skip set, `hU`
+`_create_productions`, `hF` `_factorize_productions`, `hV` `_verify_grammar_structure_part1`, `hN` nullables,
+`hFi` FIRST, `hFo` FOLLOW, `hT` table — a failure of one of them is another exception class or error code, about
+which the property says nothing), the constructor raises `GrammarIsRecursive` **iff** some symbol
 of the productions the user wrote reaches itself without consuming a token (`NU` = least nullable set
-of the user's dictionary), and it returns a parser iff there is no such symbol. Both
-`smart_factorization` values, every assignment of names. -/
+of the user's dictionary; `hNU` always holds for some `NU`: `nullables_total`), and it returns a parser iff there
+is no such symbol. Both `smart_factorization` values, every assignment of names.
+The hypotheses are met by every input the constructor accepts (`ctor_recursive_hyps_met`), so for accepted
+inputs the statement is unconditional (`accepted_user_acyclic`); for rejected ones it is conditional on the
+other stages (the model has no proof that they cannot fail for a well-formed dictionary). -/
 theorem ctor_recursive_iff (inp : CtorIn) (skip : List Sym) (U G : Prods Sym) (S NG NU : List Sym)
     (first follow : SetMap Sym) (table : Table Sym)
     (hD : (tokenNames inp).any (fun t => hasDunder t.name) = false)
@@ -93,6 +98,52 @@ theorem ctor_recursive_iff (inp : CtorIn) (skip : List Sym) (U G : Prods Sym) (S
     (construct inp = .error .grammarIsRecursive ↔ ∃ X, Plus (Reach1 U NU) X X) ∧
     ((∃ P, construct inp = .ok P) ↔ ¬ ∃ X, Plus (Reach1 U NU) X X) :=
   construct_rec_iff hD hskip hU hF hV hN hFi hFo hT hNU
+
+/-- `_get_nullables` is total: the hypothesis `hNU` of `ctor_recursive_iff` can always be met -/
+theorem nullables_total (U : Prods Sym) : ∃ NU, nullables U = .ok NU := LL.nullables_total U
+
+/-- **The hypotheses of `ctor_recursive_iff` are satisfiable and are met whenever the constructor returns a
+parser**: every stage named there succeeded, with `U`, `G`, … the fields of the parser. -/
+theorem ctor_recursive_hyps_met (inp : CtorIn) (P : Parser) (hP : construct inp = .ok P) :
+    (tokenNames inp).any (fun t => hasDunder t.name) = false ∧
+    skipSet inp (tokenNames inp) = .ok P.skip ∧
+    createProds 0 inp.prods [] = .ok P.userProds ∧
+    factorize (tokenNames inp) P.userProds inp.smart = .ok (P.prods, P.suffix) ∧
+    verifyPart1 (sadd (tokenNames inp) endSym) (parseSym inp.start) P.prods = .ok () ∧
+    nullables P.prods = .ok P.nullables ∧
+    firstSets (sadd (tokenNames inp) endSym) P.nullables P.prods = .ok P.first ∧
+    followSets (sadd (tokenNames inp) endSym) P.nullables P.first P.prods (parseSym inp.start) endSym = .ok P.follow ∧
+    mkTable (sadd (tokenNames inp) endSym) P.nullables P.first P.follow P.prods = .ok P.table ∧
+    ∃ NU, nullables P.userProds = .ok NU :=
+  construct_stages_of_ok hP
+
+/-- **The same iff for dictionaries written with production templates** (`ProdSequence`, `ListProds`,
+`MapProds`): `constructG T` is the constructor with the templates' generated productions as data `T`; `U` is the
+**expanded** dictionary (`createProdsT T`: every template key replaced by the productions it generates — the
+dictionary the harness's reference left-recursion test runs on). Conditional on the other stages exactly as
+`ctor_recursive_iff`; `hpl`: no name of the dictionary has the shape of a helper name `X__Snn` (decidable). -/
+theorem ctor_recursive_iff_templates (T : Tmpl) (inp : CtorIn) (skip : List Sym) (U G : Prods Sym)
+    (S NG NU : List Sym) (first follow : SetMap Sym) (table : Table Sym) (hpl : PlainNames inp.prods)
+    (hD : (tokenNames inp).any (fun t => hasDunder t.name) = false)
+    (hskip : skipSet inp (tokenNames inp) = .ok skip)
+    (hU : createProdsT T 0 inp.prods [] = .ok U)
+    (hF : factorize (tokenNames inp) U inp.smart = .ok (G, S))
+    (hV : verifyPart1 (sadd (tokenNames inp) endSym) (parseSym inp.start) G = .ok ())
+    (hN : nullables G = .ok NG)
+    (hFi : firstSets (sadd (tokenNames inp) endSym) NG G = .ok first)
+    (hFo : followSets (sadd (tokenNames inp) endSym) NG first G (parseSym inp.start) endSym = .ok follow)
+    (hT : mkTable (sadd (tokenNames inp) endSym) NG first follow G = .ok table)
+    (hNU : nullables U = .ok NU) :
+    (constructG T inp = .error .grammarIsRecursive ↔ ∃ X, Plus (Reach1 U NU) X X) ∧
+    ((∃ P, constructG T inp = .ok P) ↔ ¬ ∃ X, Plus (Reach1 U NU) X X) :=
+  constructG_rec_iff hpl hD hskip hU hF hV hN hFi hFo hT hNU
+
+/-- an accepted dictionary with templates is not left recursive — stated on the **expanded** productions
+(unconditional) -/
+theorem accepted_user_acyclic_templates (T : Tmpl) (inp : CtorIn) (P : Parser) (hP : constructG T inp = .ok P)
+    (hpl : PlainNames inp.prods) (NU : List Sym) (hNU : nullables P.userProds = .ok NU) :
+    ¬ ∃ X, Plus (Reach1 P.userProds NU) X X :=
+  acceptedG_user_acyclic hP hpl hNU
 
 /-- **Stack bound** (generic): under the hypotheses of the termination theorem, a stack satisfying
 the invariant has at most `(|tokens| + 1) · (R + 1)` frames, `R` bounding the ranks of its symbols:
